@@ -429,9 +429,12 @@ def run(repo, chk):
         'The lexer is a set of regular expressions, tables and five small readers.  Each pattern is compared for '
         'LANGUAGE EQUIVALENCE with an independently written reference (automata over a symbolic alphabet, so an '
         'equivalent rewrite does not alarm and any change of accepted text does).  Tables (escapes, keyword / symbol '
-        'partition, longest-match order) are tabulated by interpreting the module-level code.  Reader order, the '
-        'pairing of each integer pattern with its base, the span book-keeping order in lex(), cursor arithmetic of the '
-        'scanner and the absence of position fields in tokens are structural rules.')
+        'partition, longest-match order) and the readers of fixed tokens are tabulated by interpreting the code of the '
+        'tree (never importing it), under both iteration orders of every set.  Token boundaries, spans and the end '
+        'position are decided by interpreting lex() on every source up to a stated length over a small alphabet plus a '
+        'list of sources with every literal form, against a reference tokeniser written from the documentation '
+        '(BOUNDED, not a proof: see not_decided).  Reader order, the pairing of each integer pattern with its base and '
+        'the absence of position fields in tokens are structural rules; cursor arithmetic of the scanner is tabulated.')
     chk.assumptions = ['Python int(), chr() and str.encode compute the documented values',
                        'non-ASCII characters are abstracted to four classes (letter, digit, space, other)']
     chk.rule('C12.R1', 'each literal pattern is language-equivalent to its reference; integer patterns are paired with the right base')
@@ -697,4 +700,8 @@ def run(repo, chk):
         from . import c13
         from ..report import Remap
         c13.run(repo, Remap(chk, {'C13.B0': 'C12.R7'}))
-    chk.not_decided = ['that int()/chr()/str.encode compute the documented values (Python semantics trusted)']
+    chk.not_decided = ['that int()/chr()/str.encode compute the documented values (Python semantics trusted)',
+                       'lex() on sources longer than the enumerated ones (whole-source behaviour is bounded: all sources of up to '
+                       '3 characters - 4 in the thorough tier - over {a, 1, blank, +, =, /, <}, pairs of short lines, and '
+                       'about 25 longer sources); the per-reader rules (patterns by language equivalence, literal readers on '
+                       'all short lines) are what carries over to arbitrary sources']
